@@ -16,7 +16,7 @@ import (
 func init() {
 	register(&Prop{
 		ID:          "C11",
-		Explanation: "Decides the structure of sign-out: SignOut issues its success redirect only on paths where ClearSessionCookie returned nil; Manager.Clear emits the ticket-cookie deletion on every path, returns nil for an undecodable ticket only when the error is http.ErrNoCookie, and otherwise returns clearSession's result, which is the Store.Clear error passed up unchanged through the closure, the redis store (non-nil whenever Client.Del's error is non-nil) and the client wrappers; the cookie store's Clear ranges over every cookie of the request and, for each whose name matches a pattern compiled from regexp.QuoteMeta(Cookie.Name) plus an optional _<digits> suffix (a constant accepted/rejected on a fixed probe set, agreeing with splitCookieName's format), sets a deletion cookie under the presented name; setters and deleters of ticket, CSRF and session cookies use the same name expression and the same options object. Added during the build: a request that waited for the refresh lock writes the session back only after a successful reload under the lock, so a signed-out session is not re-created (R5, shared with C12.R2). Round 3: the cookie-domain list setters and deleters choose from is sorted once and never reordered (R6); a save over a decodable request ticket reuses it, so a re-login leaves no orphan (R7). Round 4: the cookie ticket.clearCookie emits carries an empty value and a negative constant lifetime, not one derived from configuration (under R2). Round 5: the redis lock returns for a busy lock exactly the sentinel the loader's retry loop tests, so a sign-out waits for a refresh in flight (R8, shared with C12.R7). Round 6: the signed-timestamp window of Validate keeps its clock-skew tolerance (R9, shared with C09.R1); Clear also expires session cookies already queued on the response (under R3, defect 16). Round 7: request handling keeps no state of its own between requests — no store, map update, in-place builtin, atomic/sync.Map write or pointer-receiver library call (singleflight, caches) reached from ServeHTTP targets a package-level variable, an object built at start-up, or a constructor variable captured by the handler it returned, declared in the packages implementing this property (RS; a class-wide who-may-write rule with zero instances today: a correct memoisation would be reported until reviewed). ClearSessionCookie answers with the store's Clear result of that path, on every path (R10, shared with C13.R11). Round 8: decodeTicketFromRequest hands back http.ErrNoCookie — read by Manager.Clear as 'nothing to delete' — only as req.Cookie's own error (R11).",
+		Explanation: "Decides the structure of sign-out: SignOut issues its success redirect only on paths where ClearSessionCookie returned nil; Manager.Clear emits the ticket-cookie deletion on every path, returns nil for an undecodable ticket only when the error is http.ErrNoCookie, and otherwise returns clearSession's result, which is the Store.Clear error passed up unchanged through the closure, the redis store (non-nil whenever Client.Del's error is non-nil) and the client wrappers; the cookie store's Clear ranges over every cookie of the request and, for each whose name matches a pattern compiled from regexp.QuoteMeta(Cookie.Name) plus an optional _<digits> suffix (a constant accepted/rejected on a fixed probe set, agreeing with splitCookieName's format), sets a deletion cookie under the presented name; setters and deleters of ticket, CSRF and session cookies use the same name expression and the same options object. Added during the build: a request that waited for the refresh lock writes the session back only after a successful reload under the lock, so a signed-out session is not re-created (R5, shared with C12.R2). Round 3: the cookie-domain list setters and deleters choose from is sorted once and never reordered (R6); a save over a decodable request ticket reuses it, so a re-login leaves no orphan (R7). Round 4: the cookie ticket.clearCookie emits carries an empty value and a negative constant lifetime, not one derived from configuration (under R2). Round 5: the redis lock returns for a busy lock exactly the sentinel the loader's retry loop tests, so a sign-out waits for a refresh in flight (R8, shared with C12.R7). Round 6: the signed-timestamp window of Validate keeps its clock-skew tolerance (R9, shared with C09.R1); Clear also expires session cookies already queued on the response (under R3, defect 16). Round 7: request handling keeps no state of its own between requests — no store, map update, in-place builtin, atomic/sync.Map write or pointer-receiver library call (singleflight, caches) reached from ServeHTTP targets a package-level variable, an object built at start-up, or a constructor variable captured by the handler it returned, declared in the packages implementing this property (RS; a class-wide who-may-write rule with zero instances today: a correct memoisation would be reported until reviewed). ClearSessionCookie answers with the store's Clear result of that path, on every path (R10, shared with C13.R11). Round 8: decodeTicketFromRequest hands back http.ErrNoCookie — read by Manager.Clear as 'nothing to delete' — only as req.Cookie's own error (R11). Part names of a split session are always name_i, the form Clear selects by (R12: KNOWN FINDING on the unchanged tree, defect 18).",
 		NotDecided:  "replay histories against a live store; truncated split names for 251-256 byte cookie names (arithmetic); what a browser does with the deletions.",
 		Run:         runC11,
 	})
